@@ -4,7 +4,7 @@
    Styles are abstract tokens (option Z, None = null style, `+` right-biased).
    Definitions only.  Box data, tree guides and bar characters come from gen/FrameBoxes.v. *)
 From RichModel Require Import Prelude Cells Segments.
-From RichGen Require Import FrameBoxes.
+From RichGen Require Import FrameBoxes FrameFacts.
 
 Definition segZ := seg Z.
 Definition line := list segZ.
@@ -516,5 +516,21 @@ Fixpoint tree_preorder (W : Z) (d : Z) (t : tnode) : list (Z * list str) :=
       (d, map line_text (render_lines lab (W - 4 * d) (Some None) true))
       :: (if ex then flat_map (tree_preorder W (d + 1)) kids else [])
   end.
+
+(* ---------------------------------------------------------------- Console.print(r, width=N) *)
+(* render_options = self.options.update(width = min(width, self.width) if width else None): the width the
+   renderable is laid out at.  The rule itself is a T3 fact regenerated from /repo (gen/FrameFacts.v); when the
+   source no longer has that shape the model falls back to handing `width` through unchanged. *)
+Definition print_render_width (width : option Z) (W : Z) : Z :=
+  match width with
+  | None => W
+  | Some n =>
+      if PRINT_WIDTH_IS_MIN_OR_NONE then (if n =? 0 then W else Z.min n W)
+      else n
+  end.
+
+(* what reaches the buffer: the segments rendered at that width, split and cropped at the console width *)
+Definition print_lines (W : Z) (segs : list segZ) : list line :=
+  if PRINT_CROPS_AT_CONSOLE_WIDTH then split_and_crop_lines false segs W None false false else split_lines segs.
 
 Arguments box_char : simpl never.
